@@ -33,6 +33,7 @@ CLASS_OF_KIND = {
     'parse_exception': 'SYNTAX_ERROR', 'exe_input_report': 'HARD_ERROR',
     'exit_nonzero': None,  # depends on the phase: FAIL in assert, HARD_ERROR elsewhere
     'spawn_error': 'HARD_ERROR',
+    'real_hard_error': 'HARD_ERROR',  # a real instruction that fails in its main step (cd to a missing directory)
     'timeout_kill': 'HARD_ERROR',  # a timeout is an error, never a FAIL
 }
 
